@@ -122,6 +122,22 @@ def run_case(case: dict) -> dict:
                 except (KeyError, ValueError):
                     raised = True
                 log({"e": "unsub", "id": op["id"], "cb": [0, op["k"], 0, 0]}, raised)
+            elif o == "unsub_handler":
+                # the application unsubscribes one of a node's own handlers through the public interface
+                node = net.nodes.get(op["nid"])
+                if node is None:
+                    continue
+                if isinstance(node, canopen.RemoteNode):
+                    cid, h = [(node.sdo.tx_cobid, node.sdo.on_response), (0x700 + node.id, node.nmt.on_heartbeat),
+                              (0x80 + node.id, node.emcy.on_emcy), (0, node.nmt.on_command)][op["role"] % 4]
+                else:
+                    cid, h = [(node.sdo.rx_cobid, node.sdo.on_request), (0, node.nmt.on_command)][op["role"] % 2]
+                lab = label(h)
+                try:
+                    net.unsubscribe(cid, h)
+                except (KeyError, ValueError):
+                    raised = True
+                log({"e": "unsub", "id": cid, "cb": lab}, raised)
             elif o == "unsuball":
                 try:
                     net.unsubscribe(op["id"])
